@@ -710,9 +710,9 @@ class Sandbox:
                     for index, (arg_value, arg_name)
                     in enumerate(zip_longest(args, args_locals))]
         str_kwargs = ["{}={}".format(key,
-                                     self._make_temporary('kwarg', key, value))
-                      if key not in kwargs_locals else
-                      kwargs_locals[key]
+                                     self._make_temporary('kwarg', key, value)
+                                     if key not in kwargs_locals else
+                                     kwargs_locals[key])
                       for key, value in kwargs.items()]
         arguments = ", ".join(str_args + str_kwargs)
         call = f"{function}({arguments})"
